@@ -27,6 +27,7 @@ pub mod c19;
 pub mod c19_bin;
 pub mod c20;
 pub mod c14_extra;
+pub mod h3_l2;
 
 pub fn dispatch(args: &Args) -> i32 {
     match args.id.as_str() {
